@@ -12,8 +12,12 @@ TR_NAME = "translator t_cells (c_offsets, OFFSET2NEIGHBOR, INV_NEIGHBOR, TOCELLI
 
 
 TR_SITES = "translator t_createdist (every call site of createDistancesForSame / createDistancesForDifferent in CellLink::createDistances, loop skeleton checked; the model's linkPairs interprets the table)"
-SITE_THEOREMS = ["Sympler.CreateDist.C01_call_sites_wellformed", "Sympler.CreateDist.C01_call_sites_cover"]
-SITE_MODULES = ["Sympler.Gen.CreateDistGen", "Props.CreateDist"]
+SITE_THEOREMS = ["Sympler.CreateDist.C01_call_sites_wellformed", "Sympler.CreateDist.C01_call_sites_cover", "Sympler.CreateDist.C13_call_sites_mirror",
+                 "Sympler.PairSearch.sites_branch2", "Sympler.PairSearch.branch2_complete", "Sympler.PairSearch.branch2_sound",
+                 "Sympler.PairSearch.sites_branch3", "Sympler.PairSearch.branch3_complete", "Sympler.PairSearch.branch3_sound",
+                 "Sympler.PairSearch.sites_branch1", "Sympler.PairSearch.branch1_complete", "Sympler.PairSearch.branch1_sound",
+                 "Sympler.PairSearch.mem_forSame", "Sympler.PairSearch.sites_branch0", "Sympler.PairSearch.branch0_iff"]
+SITE_MODULES = ["Sympler.Gen.CreateDistGen", "Props.CreateDist", "Props.PairSearchSites"]
 
 
 def translate(ctx):
